@@ -31,6 +31,19 @@ Theorem C04_complete_at_quiescence : forall (STR : list (N * batch)) (sess : N),
 Proof. exact complete_at_quiescence. Qed.
 Print Assumptions C04_complete_at_quiescence.
 
+(* the fact that makes the open finding `ended-session-tail-not-served` precise: a reader whose
+   handler has passed the last batch d addressed to the session (e.g. the batch of the message
+   that ended the session) has everything; the real handler stops following once the session is
+   gone, which the model only has as the disconnect step *)
+Theorem C04_complete_once_passed : forall (STR : list (N * batch)) (sess : N),
+  wf_stream STR ->
+  forall (ls0 : N * N) (st : rstate) (k : nat) (pos : N) (res : N * N) (d : N),
+  reach STR sess ls0 st -> r_conn st = Some (k, HCall pos res) -> r_inflight st = [] ->
+  (forall m, List.In m (flat STR) -> interesting sess m = true -> o_id m <= d) -> d <= pos ->
+  r_recv st = List.filter (interesting sess) (List.filter (fun m => ltb2 ls0 (mid m)) (flat STR)).
+Proof. exact complete_once_passed. Qed.
+Print Assumptions C04_complete_once_passed.
+
 Theorem C04_stream_sorted : forall STR, wf_stream STR ->
   Sorted.StronglySorted (fun x y => lt2 (mid x) (mid y)) (flat STR).
 Proof. exact flat_sorted. Qed.
